@@ -175,17 +175,29 @@ class MessageDispatcher(ClientMessageSink):
       # _DispatchMethod returns an AsyncResult, so we end up with an
       # AsyncResult<AsyncResult<TRet>>, Unwrap() removes one layer, yielding
       # an AsyncResult<TRet>
-      ar = self._open_ar.ContinueWith(
+      dispatched_ar = self._open_ar.ContinueWith(
           lambda ar: self._DispatchMethod(method, args, kwargs, timeout, start_time)
       ).Unwrap()
-      if timeout:
-        # Nothing below enforces the deadline until Open() completes, which may
-        # take longer than the call's timeout.
-        def on_timeout():
-          if not ar.ready():
-            ar.set_exception(TimeoutError())
-        cancel_timeout = GLOBAL_TIMER_QUEUE.Schedule(start_time + timeout, on_timeout)
-        ar.rawlink(lambda _: cancel_timeout())
+      if not timeout:
+        return dispatched_ar
+
+      # Nothing below enforces the deadline until Open() completes, which may
+      # take longer than the call's timeout.  The caller's result completes
+      # exactly once: with whatever the dispatched call produces, or with a
+      # TimeoutError at the deadline, whichever comes first.
+      ar = AsyncResult()
+      def on_timeout():
+        if not ar.ready():
+          ar.set_exception(TimeoutError())
+      cancel_timeout = GLOBAL_TIMER_QUEUE.Schedule(start_time + timeout, on_timeout)
+      def on_dispatched(_):
+        cancel_timeout()
+        if not ar.ready():
+          if dispatched_ar.exception:
+            ar.set_exception(dispatched_ar.exception)
+          else:
+            ar.set(dispatched_ar.value)
+      dispatched_ar.rawlink(on_dispatched)
       return ar
 
   @staticmethod
